@@ -3,6 +3,7 @@ verus! {
 
 //@@ unit handle_getset fn src/storage/commands/strings.rs handle_getset
 //@@   params drop "storage: &Arc<StorageEngine>" add "storage: &mut EngineModel"
+//@@   rewrite RT "storage.set_string(" "storage.set_string_t("
 pub fn handle_getset(storage: &mut EngineModel, db: usize, parts: &[RespFrame]) -> (r: Result<RespFrame>)
     ensures
         (parts@.len() != 3 || arg(parts@, 1) is None || arg(parts@, 2) is None) ==> cmd_refused(r, old(storage).ds@, final(storage).ds@),
@@ -12,8 +13,9 @@ pub fn handle_getset(storage: &mut EngineModel, db: usize, parts: &[RespFrame]) 
                 // refused (wrong type): no success reply and the dataset is exactly as it was
                 Some(DV::List(_)) | Some(DV::Set(_)) | Some(DV::Hash(_)) | Some(DV::ZSet) | Some(DV::Stream) => !(r matches Ok(f) && !(f is Error)) && final(storage).ds@ == old(storage).ds@,
                 // string or absent: old value (or nil) returned, new value stored
-                Some(DV::Str(b)) => r is Err || cmd_ok(r, final(storage).ds@, (RV::Bulk(Some(b)), old(storage).ds@.insert((db as int, k), DV::Str(v)))),
-                None => r is Err || cmd_ok(r, final(storage).ds@, (RV::Bulk(None), old(storage).ds@.insert((db as int, k), DV::Str(v)))),
+                // (C02: GETSET is an overwrite — whatever TTL the key had is gone, also when the new value equals the old one)
+                Some(DV::Str(b)) => r is Err || (cmd_ok(r, final(storage).ds@, (RV::Bulk(Some(b)), old(storage).ds@.insert((db as int, k), DV::Str(v)))) && final(storage).ttl@ == old(storage).ttl@.remove((db as int, k))),
+                None => r is Err || (cmd_ok(r, final(storage).ds@, (RV::Bulk(None), old(storage).ds@.insert((db as int, k), DV::Str(v)))) && final(storage).ttl@ == old(storage).ttl@.remove((db as int, k))),
             }
         }),
 //@@ body
